@@ -193,11 +193,20 @@ class Interp:
         self.InnerHandle = InnerHandle
         self.inner_loads = 0
         self.CountingHandle = CountingHandle
-        self.root = MMap('R', ArgMap('root') if self.cfg.get('root_sub')
-                         else d.ResourceMap())
+        # the root may be of a class with its own delimiter: its composite
+        # keys are split on that one, and names containing '/' are plain
+        # names for it
+        self.S = self.cfg.get('root_split') or SPLIT
+        rbase = ArgMap if self.cfg.get('root_sub') else d.ResourceMap
+        if self.S != SPLIT:
+            rbase = type('SplitRoot', (rbase,), {'split_char': self.S})
+            self.probes['root_with_its_own_split_char'] += 1
+        self.root = MMap('R', rbase('root') if self.cfg.get('root_sub')
+                         else rbase())
         self.maps = {'R': self.root}        # map id -> MMap
         self.h = {}                         # handle id -> HState
         self.snaps = {}                     # snap id -> (static, model)
+        self.snap_of_root = set()
         self.loop = d.SimpleLoop()
         self.loop_cur = None
         self.scratch = None
@@ -337,7 +346,7 @@ class Interp:
         root = self.root.obj
         self.probes['nested_load'] += 1
         v = self.access(st.via, 'nested_load',
-                        lambda: root[SPLIT.join(path)])
+                        lambda: root[self.S.join(path)])
         return ['via', v]
 
     def access(self, hid, how, thunk):
@@ -529,7 +538,8 @@ class Interp:
         robj = node.obj
         try:
             with kernel.budget(OP_BUDGET):
-                target.obj[key] = robj
+                target.obj[key.replace(SPLIT, self.S)
+                           if target is self.root else key] = robj
         except SimHang as e:
             self.fail('C11', 'hang', f'__setitem__: {e}')
         except Exception as e:
@@ -688,12 +698,12 @@ class Interp:
             return 'skip'
         root = self.root.obj
         if how == 'getitem_root':
-            self.access(hid, how, lambda: root[SPLIT.join(path)])
+            self.access(hid, how, lambda: root[self.S.join(path)])
         elif how == 'getitem_sub':
             if len(path) < 2:
                 return 'skip'
             k = 1 + (hid % (len(path) - 1))
-            sub = root.get(SPLIT.join(path[:k]))
+            sub = root.get(self.S.join(path[:k]))
             self.access(hid, how, lambda: sub[SPLIT.join(path[k:])])
         elif how == 'chain':
             def thunk():
@@ -704,7 +714,7 @@ class Interp:
             self.access(hid, 'getitem_chain', thunk)
         else:
             self.access(hid, 'get_call',
-                        lambda: root.get(SPLIT.join(path))())
+                        lambda: root.get(self.S.join(path))())
 
     def op_loop_switch(self, op):
         _, hid, cc, cn = op
@@ -791,6 +801,8 @@ class Interp:
             self.probes['snapshot_failed_then_tree_repaired'] += 1
         model = self.snap_model(target)
         self.snaps[sid] = (s, model)
+        if target is self.root:
+            self.snap_of_root.add(sid)
         depth = self.model_depth(model)
         layered = any(len([l for l in m.layers if l]) >= 2
                       for m in self.walk_maps(target))
@@ -865,7 +877,18 @@ class Interp:
                     self.fail('C17', kind or 'attr', f'{where}.{name} is '
                               f'not {where}[{name!r}]')
                 self.compare_static(sub, v, f'{where}[{name!r}]', kind)
-        for name in ALPHA17:
+        extra_names = []
+        if (self.S != SPLIT and where[1:].isdigit()
+                and int(where[1:]) in self.snap_of_root):
+            # names with a '/' are plain names for this root: 'p/q' is
+            # absent from it even when p is a sub-map holding q
+            for p, (k, v) in model.items():
+                if k == 'm':
+                    extra_names += [p + SPLIT + q for q in list(v)[:3]]
+                    extra_names.append(p + SPLIT)
+            self.probes['slash_names_absent_from_split_root'] += bool(
+                extra_names)
+        for name in ALPHA17 + extra_names:
             if name in model:
                 continue
             try:
@@ -967,7 +990,7 @@ class Interp:
         names = list(dict.fromkeys(list(mm.maps) + [
             n for l in mm.layers for n in l] + ALPHA))
         for name in names:
-            key = SPLIT.join(path + [name])
+            key = self.S.join(path + [name])
             hid = mm.visible(name)
             sub = mm.maps.get(name)
             sentinel = object()
@@ -990,7 +1013,7 @@ class Interp:
                 if self.prop != 'C12' or st.loaded:
                     self.access(hid, 'getitem_root', lambda: root[key])
                 for extra in ('a', ''):
-                    k2 = key + SPLIT + extra
+                    k2 = key + self.S + extra
                     if root.get(k2, sentinel) is not sentinel:
                         self.fail('C11', 'default_vs_keyerror',
                                   f'get({k2!r}) below a handle returned '
@@ -1229,7 +1252,9 @@ def generate(prop, run_seed, tier='quick', tolerate=frozenset()):
         if prop == 'C11' else crng.choice([None] * 6 + ['equal'])
     return {'format': 1, 'engine': 'restree',
             'config': {'alphabet': alpha, 'heq': heq,
-                       'root_sub': crng.random() < .15},
+                       'root_sub': crng.random() < .15,
+                       'root_split': (crng.choice(['|', ':', '>'])
+                                      if crng.random() < .07 else None)},
             'ops': ops, 'scripts': {}}
 
 
